@@ -2557,7 +2557,7 @@ class SequenceAndSetBase(base.ConstructedAsn1Type):
         except IndexError:
             currentValue = noValue
             if componentTypeLen:
-                if componentTypeLen < idx:
+                if componentTypeLen <= idx:
                     raise error.PyAsn1Error('component index out of range')
 
                 componentValues = [noValue] * componentTypeLen
